@@ -264,6 +264,10 @@ func genScenario() *netctl.Scenario {
 		Name:    "XG",
 		Faults:  faults,
 		Horizon: 90*time.Second + boundGroup,
+		// Two group members fetching from two brokers with a 500 ms fetch wait
+		// produce ~100 frame events per virtual second; the longest scripts
+		// shut down after ~8 s.
+		MaxPoints: 2000,
 		Setup: func(x *netctl.Exec) {
 			cfgs := gcfgs()
 			if only := os.Getenv("C13_CFG"); only != "" {
